@@ -16,6 +16,9 @@ THROWS = [
     ("json.dumps", [], None),
     ("base64.b64decode", ["binascii.Error"], None),
     ("base64.urlsafe_b64encode", [], None),
+    ("base64.urlsafe_b64decode", ["binascii.Error", "ValueError"], None),   # probed: bad padding -> binascii.Error, non-ASCII str -> ValueError
+    ("binascii.Error", [], None),                                            # constructing the exception object
+    ("ec.derive_private_key", ["ValueError"], None),                         # probed: 0, negative and out-of-range scalars -> ValueError
     ("binascii.a2b_hex", ["binascii.Error"], None),
     ("binascii.b2a_hex", [], None),
     ("builtins.str.encode", ["UnicodeEncodeError"], None),
